@@ -23,3 +23,15 @@ PROPS["C04"] = dict(
     assumptions=["meow hashes of distinct keys/rows of a run are distinct (hash values are taken from the Go run)",
                  "column comparison / non-equal-column diffs (CompareColumns) are outside this model"],
 )
+
+PROPS["C06"] = dict(
+    lean_modules=["WrglModel.Props.C06"],
+    quick_n=1600, thorough_n=24000,
+    rule="generated values per object type (string lists incl. 65534..131072-byte cells, blocks of 0..255 rows, table and "
+         "commit objects incl. extreme instants/zones and over-long fields, packfile headers over boundary/64-bit lengths, "
+         "Save* of random contents); non-trivial = non-empty value; distinct = distinct (op, input)",
+    modelled="pkg/objects/str_list.go (Encode, Read, Decode), block.go (WriteBlockTo, CombineRowBytesIntoBlock, ReadBlockFrom), uint_list.go, "
+             "table.go (WriteTo, ReadFrom), commit.go (WriteTo, ReadFrom), pkg/encoding/objline (WriteString, WriteTime, DecodeTime, fields), "
+             "packfile header codec, objects.Save* key derivation",
+    assumptions=["meow.Checksum is a function (digest supplied by the Go run)", "s2 compression round-trips (block bytes are compared before compression)"],
+)
